@@ -87,7 +87,11 @@ Verdicts(a, cfg, maxAge, offset) ==
 HTTPMaxAge == 3600
 HTTPOffset == 1
 
-\* outcome: [verify, bearerP, bearerL, codeP, codeL] each [v, identity]  (identity: the client the provider took the caller for)
+\* outcome: [verify, bearerP, bearerL, codeP, codeL, introP, introL] each [v, identity]  (identity: the client the provider took the caller for)
+\* tenantX: the jwt-bearer grant at the second tenant of a provider whose issuer follows the request host (op.IssuerFromHost) and whose
+\* first tenant has been used before: there "issuer" is the second tenant's issuer and the other audience "x" is the first tenant's
+\* introX: introspection of a live token of the probe client; the request carries the assertion and names the probe client as client_id;
+\* only a caller in the token's audience (= the probe client) is told that the token is active
 Outcomes(c) ==
   LET a == c.a
       direct == {[v |-> v, identity |-> IF v = "accept" THEN a.iss ELSE "none"] : v \in Verdicts(a, c.cfg, c.cfg.maxAge, 0)}
@@ -95,7 +99,7 @@ Outcomes(c) ==
       bearer == {[v |-> v, identity |-> IF v = "accept" THEN a.iss ELSE "none"] : v \in http}
       code   == {[v |-> IF v = "accept" /\ ProbeClient(c) = IssClient(a) THEN "accept" ELSE "reject",
                   identity |-> IF v = "accept" /\ ProbeClient(c) = IssClient(a) THEN a.iss ELSE "none"] : v \in http} IN
-  {[verify |-> d, bearerP |-> b, bearerL |-> b, codeP |-> k, codeL |-> k] : d \in direct, b \in bearer, k \in code}
+  {[verify |-> d, bearerP |-> b, bearerL |-> b, codeP |-> k, codeL |-> k, introP |-> k, introL |-> k, tenantP |-> b, tenantL |-> b] : d \in direct, b \in bearer, k \in code}
 
 RulesEntry(e, c, o, maxAge, offset) ==
   { <<"C14.assertion.sound:" \o e,    (o.v = "accept") => MayAccept(c.a, c.cfg, maxAge, offset)>>,
@@ -106,11 +110,14 @@ RulesEntry(e, c, o, maxAge, offset) ==
 Rules(c, o) ==
   RulesEntry("verify", c, o.verify, c.cfg.maxAge, 0)
   \cup { <<"C14.assertion.complete:verify", MustAccept(c.a, c.cfg, c.cfg.maxAge, 0) => o.verify.v = "accept">> }
-  \cup UNION {RulesEntry(e, c, o[e], HTTPMaxAge, HTTPOffset) : e \in {"bearerP", "bearerL", "codeP", "codeL"}}
-  \cup { <<"C14.assertion.complete:" \o e, MustAccept(c.a, c.cfg, HTTPMaxAge, HTTPOffset) => o[e].v = "accept">> : e \in {"bearerP", "bearerL"} }
+  \cup UNION {RulesEntry(e, c, o[e], HTTPMaxAge, HTTPOffset) : e \in {"bearerP", "bearerL", "codeP", "codeL", "tenantP", "tenantL"}}
+  \cup UNION {{ <<"C14.assertion.sound:" \o e, (o[e].v = "accept") => MayAccept(c.a, c.cfg, HTTPMaxAge, HTTPOffset)>>,
+               <<"C02.assertion.key:" \o e, (o[e].v = "accept") => Signed(c.a)>>,
+               <<"C09.nopanic:" \o e, o[e].v # "panic">> } : e \in {"introP", "introL"}}
+  \cup { <<"C14.assertion.complete:" \o e, MustAccept(c.a, c.cfg, HTTPMaxAge, HTTPOffset) => o[e].v = "accept">> : e \in {"bearerP", "bearerL", "tenantP", "tenantL"} }
   \* identity probe: a code issued to the probe client is redeemed only if the assertion authenticates exactly that client
-  \cup { <<"C14.assertion.probe:" \o e, (o[e].v = "accept") => ProbeClient(c) = IssClient(c.a)>> : e \in {"codeP", "codeL"} }
-  \cup { <<"C14.assertion.complete:" \o e, (MustAccept(c.a, c.cfg, HTTPMaxAge, HTTPOffset) /\ ProbeClient(c) = IssClient(c.a)) => o[e].v = "accept">> : e \in {"codeP", "codeL"} }
+  \cup { <<"C14.assertion.probe:" \o e, (o[e].v = "accept") => ProbeClient(c) = IssClient(c.a)>> : e \in {"codeP", "codeL", "introP", "introL"} }
+  \cup { <<"C14.assertion.complete:" \o e, (MustAccept(c.a, c.cfg, HTTPMaxAge, HTTPOffset) /\ ProbeClient(c) = IssClient(c.a)) => o[e].v = "accept">> : e \in {"codeP", "codeL", "introP", "introL"} }
 Check(c, o) == {r[1] : r \in {x \in Rules(c, o) : ~x[2]}}
 Conforms(c, o) == \E d \in Outcomes(c) : \A e \in DOMAIN d : o[e].v = d[e].v
 =============================================================================
